@@ -15,13 +15,25 @@ var c20Entries = []string{"ytypes:Unmarshal", "ytypes:SetNode", "ytypes:GetNode"
 // input. Keyed by function + asserted type; one line of reason each.
 var assertExceptions = map[string]string{
 	"util.DbgPrint|string":                                   "debug helper; only reached when the compile-time debug flag is true",
-	"ytypes.unmarshalUnion|*gnmi.TypedValue":                 "GNMI encodings are selected only in retrieveNodeContainer after a successful *TypedValue comma-ok on the same value",
 	"ytypes.checkDataTreeAgainstPaths|map[string]interface{}": "operand is the trie this function builds from struct-tag paths, not the JSON input",
 	"ygot.mapValuePairsToJSON|[]any":                         "operand is a local initialised in the same jType arm as a []any literal",
 	"ygot.mapValuePairsToJSON|map[string]any":                "operand is a local initialised in the same jType arm as a map literal",
 	"ygot.structJSON|map[string]any":                         "operand is the output map this function builds (inner nodes are always maps)",
 	"ygot.jsonAnnotationSlice|ygot.Annotation":               "caller dispatches here only when the slice element type implements Annotation",
 	"ygot.appendTypedValue|uint64":                           "arm lists reflect.Uint64 and reflect.Uint; generated GoStructs never contain Go's platform-sized uint, so only uint64 reaches it",
+}
+
+// encPair is set by the property registration before ruleAssert runs (nil: pairing not used).
+var encPair *encPairing
+
+// canonFunc maps a FuncInfo (possibly a different instance for the same declaration) to the one used by ep.
+func (c *Ctx) canonFunc(ep *encPairing, f *FuncInfo) *FuncInfo {
+	for _, g := range ep.funcs {
+		if g.Decl == f.Decl {
+			return g
+		}
+	}
+	return f
 }
 
 func ruleAssert(c *Ctx, r *Report, fs []*FuncInfo) {
@@ -139,6 +151,21 @@ func ruleAssert(c *Ctx, r *Report, fs []*FuncInfo) {
 				r.OK(key, pos, "asserted type is the basic type of the reflect.Kind arm (callers convert named types first; agreement is R-TABLES(f))")
 				continue
 			}
+			if encPair != nil && isTypedValuePtr(atype) {
+				if fe, isF := encPair.encParam[c.canonFunc(encPair, f)]; isF {
+					ps := paramObjs(f)
+					paired := false
+					for i, p := range ps {
+						if ObjOf(info, as.X) == p && encPair.need[c.canonFunc(encPair, f)][i] && gnmiOnlyFact(c, f, as.Node, ps[fe]) {
+							paired = true
+						}
+					}
+					if paired {
+						r.OK(key, pos, "parameter paired with a gNMI encoding: every call site is justified by R-ENC-PAIR")
+						continue
+					}
+				}
+			}
 			if why, ok := assertExceptions[f.Name+"|"+as.Type]; ok {
 				r.Exc(key, pos, why)
 				continue
@@ -248,4 +275,428 @@ func ruleNoPanicCalls(c *Ctx, r *Report, fs []*FuncInfo) {
 			r.OK(f.Name+":no-panic", c.Pos(f.Decl.Pos()), "")
 		}
 	}
+}
+
+// ---- encoding/value pairing (replaces a name-keyed exception of R-ASSERT) ------------------------
+
+// encPairing is the checked form of the invariant "a value handed to the unmarshal functions
+// together with a gNMI encoding is a *gnmi.TypedValue":
+//   - sinks: an unchecked value.(*gnmi.TypedValue) on a parameter, inside an arm that restricts an
+//     Encoding-typed parameter to the gNMI encodings;
+//   - need(g): the value parameters of g that must satisfy the invariant — those with a sink, and
+//     those forwarded, together with g's encoding parameter, to a needy parameter of a callee;
+//   - every call that passes something else to a needy parameter must justify it: the argument is
+//     statically a *gnmi.TypedValue, the encoding is the constant JSONEncoding, or the encoding is a
+//     local variable that receives a gNMI constant only under a successful comma-ok assertion of the
+//     very value that is passed.
+type encPairing struct {
+	encParam map[*FuncInfo]int
+	need     map[*FuncInfo]map[int]bool
+	funcs    []*FuncInfo
+	byObj    map[*types.Func]*FuncInfo
+}
+
+// forward closes need under forwarding of a function's own (value, encoding) parameter pair.
+func (ep *encPairing) forward(c *Ctx) {
+	byObj := ep.byObj
+	for changed := true; changed; {
+		changed = false
+		for _, f := range ep.funcs {
+			info := f.Info()
+			ps := paramObjs(f)
+			ast.Inspect(f.Decl.Body, func(n ast.Node) bool {
+				call, ok := n.(*ast.CallExpr)
+				if !ok {
+					return true
+				}
+				g := byObj[Callee(info, call)]
+				if g == nil || len(ep.need[g]) == 0 || ep.encParam[g] >= len(call.Args) {
+					return true
+				}
+				if ObjOf(info, call.Args[ep.encParam[g]]) != ps[ep.encParam[f]] {
+					return true
+				}
+				for k := range ep.need[g] {
+					if k >= len(call.Args) {
+						continue
+					}
+					for i, p := range ps {
+						if ObjOf(info, call.Args[k]) == p && !ep.need[f][i] {
+							if _, isID := ast.Unparen(call.Args[k]).(*ast.Ident); isID {
+								ep.need[f][i] = true
+								changed = true
+							}
+						}
+					}
+				}
+				return true
+			})
+		}
+	}
+}
+
+// notGNMIAt: at node n of function f, f's encoding parameter cannot be a gNMI encoding, because
+//   - the facts at n restrict it to JSONEncoding, or
+//   - a value parameter of f that is paired with the encoding (its pairing becomes an obligation
+//     of f's callers: added to need) has been successfully asserted to a type other than
+//     *gnmi.TypedValue on the way to n, or
+//   - every module call site of f is itself such a point in its caller (depth-bounded).
+func (ep *encPairing) notGNMIAt(c *Ctx, f *FuncInfo, n ast.Node, depth int) (bool, string) {
+	info := f.Info()
+	ps := paramObjs(f)
+	fe, ok := ep.encParam[f]
+	if !ok || depth > 3 {
+		return false, ""
+	}
+	for _, ft := range c.FactsAt(f, n, false) {
+		if ft.Kind == "switch" && ObjOf(info, ft.Cond) == ps[fe] && len(ft.Vals) > 0 {
+			all := true
+			for _, v := range ft.Vals {
+				nm := constName(info, v)
+				if nm[strings.LastIndex(nm, ".")+1:] != "JSONEncoding" {
+					all = false
+				}
+			}
+			if all {
+				return true, "inside the JSONEncoding arm of the switch on the encoding"
+			}
+		}
+		if ft.Kind != "cond" {
+			continue
+		}
+		// ok of `x, ok := p.(T)`, T not *gnmi.TypedValue, p an interface-typed parameter.
+		id, isID := ast.Unparen(ft.Cond).(*ast.Ident)
+		if !isID || !ft.Pos {
+			continue
+		}
+		okObj := info.ObjectOf(id)
+		found := -1
+		ast.Inspect(f.Decl.Body, func(m ast.Node) bool {
+			a2, isAs := m.(*ast.AssignStmt)
+			if !isAs || len(a2.Lhs) != 2 || len(a2.Rhs) != 1 || ObjOf(info, a2.Lhs[1]) != okObj {
+				return true
+			}
+			ta, isTA := ast.Unparen(a2.Rhs[0]).(*ast.TypeAssertExpr)
+			if !isTA || ta.Type == nil || isTypedValuePtr(info.Types[ta.Type].Type) {
+				return true
+			}
+			for i, p := range ps {
+				if ObjOf(info, ta.X) == p {
+					found = i
+				}
+			}
+			return true
+		})
+		if found >= 0 {
+			if !ep.need[f][found] {
+				ep.need[f][found] = true
+				ep.forward(c)
+			}
+			return true, "the paired value parameter " + ps[found].Name() + " was successfully asserted to a type other than *gnmi.TypedValue (a *gnmi.TypedValue would have failed that test)"
+		}
+	}
+	// all callers.
+	sites, all := 0, true
+	for _, h := range ep.funcs {
+		hinfo := h.Info()
+		ast.Inspect(h.Decl.Body, func(m ast.Node) bool {
+			call, isCall := m.(*ast.CallExpr)
+			if !isCall || ep.byObj[Callee(hinfo, call)] != f {
+				return true
+			}
+			sites++
+			if fe < len(call.Args) {
+				nm := constName(hinfo, call.Args[fe])
+				if nm != "" && nm[strings.LastIndex(nm, ".")+1:] == "JSONEncoding" {
+					return true
+				}
+				if he, isH := ep.encParam[h]; isH && ObjOf(hinfo, call.Args[fe]) == paramObjs(h)[he] {
+					if ok2, _ := ep.notGNMIAt(c, h, call, depth+1); ok2 {
+						return true
+					}
+				}
+			}
+			all = false
+			return true
+		})
+	}
+	// callers outside the paired functions (no encoding parameter) would pass constants; look for them too.
+	for _, h0 := range c.AllFuncs("ytypes") {
+		h := c.canonFunc(ep, h0)
+		if _, isPaired := ep.encParam[h]; isPaired {
+			continue
+		}
+		hinfo := h.Info()
+		ast.Inspect(h.Decl.Body, func(m ast.Node) bool {
+			call, isCall := m.(*ast.CallExpr)
+			if !isCall || ep.byObj[Callee(hinfo, call)] != f {
+				return true
+			}
+			sites++
+			nm := ""
+			if fe < len(call.Args) {
+				nm = constName(hinfo, call.Args[fe])
+			}
+			if nm == "" || nm[strings.LastIndex(nm, ".")+1:] != "JSONEncoding" {
+				all = false
+			}
+			return true
+		})
+	}
+	if sites > 0 && all {
+		return true, fmt.Sprintf("none of the %d call site(s) of %s can run with a gNMI encoding", sites, f.Decl.Name.Name)
+	}
+	return false, ""
+}
+
+
+var gnmiEncNames = map[string]bool{"GNMIEncoding": true, "gNMIEncodingWithJSONTolerance": true}
+
+func isEncodingType(t types.Type) bool {
+	return t != nil && namedTypeOf(t) == P("ytypes")+".Encoding"
+}
+
+func isTypedValuePtr(t types.Type) bool {
+	return t != nil && strings.HasSuffix(types.TypeString(t, nil), "gnmi/proto/gnmi.TypedValue") && strings.HasPrefix(types.TypeString(t, nil), "*")
+}
+
+// gnmiOnlyFact: the facts at n restrict Encoding-typed expression e (a parameter) to gNMI encodings.
+func gnmiOnlyFact(c *Ctx, f *FuncInfo, n ast.Node, enc types.Object) bool {
+	info := f.Info()
+	isGNMIConst := func(e ast.Expr) bool {
+		nm := constName(info, e)
+		return gnmiEncNames[strings.TrimPrefix(nm, "ytypes.")] || gnmiEncNames[nm]
+	}
+	for _, ft := range c.FactsAt(f, n, false) {
+		switch ft.Kind {
+		case "switch":
+			if ObjOf(info, ft.Cond) != enc || len(ft.Vals) == 0 {
+				continue
+			}
+			all := true
+			for _, v := range ft.Vals {
+				if !isGNMIConst(v) {
+					all = false
+				}
+			}
+			if all {
+				return true
+			}
+		case "cond":
+			if !ft.Pos {
+				continue
+			}
+			var dis []ast.Expr
+			flattenOr(ft.Cond, &dis)
+			all := len(dis) > 0
+			for _, d := range dis {
+				be, ok := ast.Unparen(d).(*ast.BinaryExpr)
+				if !ok || be.Op != token.EQL || ObjOf(info, be.X) != enc || !isGNMIConst(be.Y) {
+					all = false
+				}
+			}
+			if all {
+				return true
+			}
+		}
+	}
+	return false
+}
+
+func (c *Ctx) buildEncPairing() *encPairing {
+	ep := &encPairing{encParam: map[*FuncInfo]int{}, need: map[*FuncInfo]map[int]bool{}}
+	for _, f := range c.AllFuncs("ytypes") {
+		for i, p := range paramObjs(f) {
+			if p != nil && isEncodingType(p.Type()) {
+				ep.encParam[f] = i
+				ep.funcs = append(ep.funcs, f)
+				ep.need[f] = map[int]bool{}
+				break
+			}
+		}
+	}
+	byObj := map[*types.Func]*FuncInfo{}
+	for _, f := range ep.funcs {
+		byObj[f.Obj] = f
+	}
+	// sinks.
+	for _, f := range ep.funcs {
+		info := f.Info()
+		ps := paramObjs(f)
+		for _, as := range AssertionsIn(c, f, f.Decl.Body) {
+			if as.CommaOk || !isTypedValuePtr(info.Types[as.Node.Type].Type) {
+				continue
+			}
+			for i, p := range ps {
+				if ObjOf(info, as.X) == p && gnmiOnlyFact(c, f, as.Node, ps[ep.encParam[f]]) {
+					ep.need[f][i] = true
+				}
+			}
+		}
+	}
+	ep.byObj = byObj
+	ep.forward(c)
+	return ep
+}
+
+// ruleEncPair: R-ENC-PAIR.
+func ruleEncPair(c *Ctx, r *Report) *encPairing {
+	r.Rule("R-ENC-PAIR", "a value that reaches an unchecked .(*gnmi.TypedValue) in ytypes' unmarshal functions is paired with a gNMI encoding only where it is known to be a *gnmi.TypedValue: at every call into a parameter that needs it the argument is the caller's own paired parameter, is statically a *gnmi.TypedValue, travels with the constant JSONEncoding, or travels with an encoding variable that receives a gNMI constant only under a successful comma-ok assertion of that same value", 4)
+	ep := c.buildEncPairing()
+	byObj := map[*types.Func]*FuncInfo{}
+	for _, f := range ep.funcs {
+		byObj[f.Obj] = f
+	}
+	for _, f0 := range c.AllFuncs("ytypes") {
+		f := c.canonFunc(ep, f0)
+		info := f.Info()
+		ps := paramObjs(f)
+		n := 0
+		ast.Inspect(f.Decl.Body, func(x ast.Node) bool {
+			call, ok := x.(*ast.CallExpr)
+			if !ok {
+				return true
+			}
+			g := byObj[Callee(info, call)]
+			if g == nil || len(ep.need[g]) == 0 || ep.encParam[g] >= len(call.Args) {
+				return true
+			}
+			encArg := ast.Unparen(call.Args[ep.encParam[g]])
+			for k := range ep.need[g] {
+				if k >= len(call.Args) {
+					continue
+				}
+				n++
+				key := fmt.Sprintf("%s:call#%d→%s(arg %d)", f.Name, n, g.Decl.Name.Name, k)
+				pos := c.Pos(call.Pos())
+				valArg := ast.Unparen(call.Args[k])
+				switch {
+				case isTypedValuePtr(info.Types[valArg].Type):
+					r.OK(key, pos, "argument is statically a *gnmi.TypedValue")
+				case constName(info, encArg) == "JSONEncoding" || strings.HasSuffix(constName(info, encArg), ".JSONEncoding"):
+					r.OK(key, pos, "constant JSONEncoding: the gNMI arm is not taken")
+				case func() bool {
+					fe, isF := ep.encParam[f]
+					if !isF || ObjOf(info, encArg) != ps[fe] {
+						return false
+					}
+					for i, p := range ps {
+						if ObjOf(info, valArg) == p && ep.need[f][i] {
+							return true
+						}
+					}
+					return false
+				}():
+					r.OK(key, pos, "forwards the caller's own (value, encoding) pair; the caller's callers carry the obligation")
+				case func() bool {
+					if fe, isF := ep.encParam[f]; isF && ObjOf(info, encArg) == ps[fe] {
+						if ok3, why := ep.notGNMIAt(c, f, call, 0); ok3 {
+							r.OK(key, pos, "the encoding cannot be a gNMI one here: "+why)
+							return true
+						}
+					}
+					return false
+				}():
+				default:
+					ok2, why := encVarJustified(c, f, encArg, valArg)
+					r.Check(ok2, key, pos, why, fmt.Sprintf("%s passes %s with encoding %s to %s, which asserts the value to *gnmi.TypedValue without checking when the encoding is a gNMI one, and nothing shows the value is a *gnmi.TypedValue whenever the encoding is: %s — a SetNode/Unmarshal call with another value type panics instead of returning an error", f.Name, types.ExprString(valArg), types.ExprString(encArg), g.Decl.Name.Name, why))
+				}
+			}
+			return true
+		})
+	}
+	return ep
+}
+
+// encVarJustified: encArg is a local variable whose every gNMI-constant assignment sits under a
+// successful comma-ok assertion .(*gnmi.TypedValue) of an operand E, with valArg assigned from E in
+// the same statement list; its other assignments are the constant JSONEncoding.
+func encVarJustified(c *Ctx, f *FuncInfo, encArg, valArg ast.Expr) (bool, string) {
+	info := f.Info()
+	encObj, valObj := ObjOf(info, encArg), ObjOf(info, valArg)
+	if _, isVar := encObj.(*types.Var); !isVar {
+		return false, "the encoding argument is not a local variable (a gNMI encoding constant is passed with a value that is not known to be a *gnmi.TypedValue)"
+	}
+	if _, isID := encArg.(*ast.Ident); !isID || encObj == nil || valObj == nil {
+		return false, "the encoding argument is not a local variable"
+	}
+	for _, p := range paramObjs(f) {
+		if p == encObj {
+			return false, "the encoding is the caller's parameter but the value passed with it is not the parameter paired with it"
+		}
+	}
+	pm := c.parentMap(f.File)
+	okAll, n := true, 0
+	why := ""
+	ast.Inspect(f.Decl.Body, func(x ast.Node) bool {
+		as, ok := x.(*ast.AssignStmt)
+		if !ok || len(as.Lhs) != len(as.Rhs) {
+			return true
+		}
+		for i, l := range as.Lhs {
+			if ObjOf(info, l) != encObj {
+				continue
+			}
+			nm := constName(info, as.Rhs[i])
+			nm = nm[strings.LastIndex(nm, ".")+1:]
+			switch {
+			case nm == "JSONEncoding":
+			case gnmiEncNames[nm]:
+				n++
+				// the guarding comma-ok and its operand.
+				var operand ast.Expr
+				for _, ft := range c.FactsAt(f, as, false) {
+					if ft.Kind != "cond" || !ft.Pos {
+						continue
+					}
+					id, ok := ast.Unparen(ft.Cond).(*ast.Ident)
+					if !ok {
+						continue
+					}
+					okObj := info.ObjectOf(id)
+					ast.Inspect(f.Decl.Body, func(m ast.Node) bool {
+						a2, ok := m.(*ast.AssignStmt)
+						if !ok || len(a2.Lhs) != 2 || len(a2.Rhs) != 1 || ObjOf(info, a2.Lhs[1]) != okObj {
+							return true
+						}
+						if ta, ok := ast.Unparen(a2.Rhs[0]).(*ast.TypeAssertExpr); ok && ta.Type != nil && isTypedValuePtr(info.Types[ta.Type].Type) {
+							operand = ta.X
+						}
+						return true
+					})
+				}
+				if operand == nil {
+					okAll, why = false, "the encoding is set to "+nm+" without a preceding successful .(*gnmi.TypedValue) test"
+					continue
+				}
+				// valArg assigned from the same operand in the same list.
+				paired := false
+				var list []ast.Stmt
+				switch p := pm[as].(type) {
+				case *ast.BlockStmt:
+					list = p.List
+				case *ast.CaseClause:
+					list = p.Body
+				}
+				for _, st := range list {
+					if a3, ok := st.(*ast.AssignStmt); ok && len(a3.Lhs) == 1 && len(a3.Rhs) == 1 && ObjOf(info, a3.Lhs[0]) == valObj && sameExpr(info, a3.Rhs[0], operand) {
+						paired = true
+					}
+				}
+				if !paired {
+					okAll, why = false, "where the encoding is set to "+nm+" the value passed on is not the operand of the .(*gnmi.TypedValue) test"
+				}
+			default:
+				okAll, why = false, "the encoding variable is assigned "+types.ExprString(as.Rhs[i])
+			}
+		}
+		return true
+	})
+	if n == 0 && okAll {
+		return true, "the encoding variable never receives a gNMI constant"
+	}
+	if okAll {
+		return true, fmt.Sprintf("encoding variable set to a gNMI constant at %d place(s), each under a successful .(*gnmi.TypedValue) test of the value passed on", n)
+	}
+	return false, why
 }
